@@ -663,6 +663,11 @@ def split_parallel_assign(stmts: list[ast.stmt]) -> list[ast.stmt]:
             for h in s_.handlers:
                 h.body = split_parallel_assign(h.body)
         if isinstance(s_, ast.Assign) and len(s_.targets) == 1 and isinstance(s_.targets[0], (ast.Tuple, ast.List)) and isinstance(s_.value, (ast.Tuple, ast.List)) \
+                and len(s_.targets[0].elts) == 1 and len(s_.value.elts) == 1 and not isinstance(s_.targets[0].elts[0], ast.Starred) and not isinstance(s_.value.elts[0], ast.Starred):
+            # (t,) = [v]   ->   t = v      (whatever t is: a name, a subscript, an attribute)
+            out.append(ast.fix_missing_locations(ast.copy_location(ast.Assign(targets=[s_.targets[0].elts[0]], value=s_.value.elts[0]), s_)))
+            continue
+        if isinstance(s_, ast.Assign) and len(s_.targets) == 1 and isinstance(s_.targets[0], (ast.Tuple, ast.List)) and isinstance(s_.value, (ast.Tuple, ast.List)) \
                 and len(s_.targets[0].elts) == len(s_.value.elts) and all(isinstance(t, ast.Name) for t in s_.targets[0].elts) \
                 and not any(isinstance(v, ast.Starred) for v in s_.value.elts):
             names = {t.id for t in s_.targets[0].elts}
